@@ -117,8 +117,9 @@ class Cl:
 
 
 class Gen:
-    def __init__(self, rng, exe, check_ip=None, netbits=None, real_z=False, bind=None, hostile=0.0):
+    def __init__(self, rng, exe, check_ip=None, netbits=None, real_z=False, bind=None, hostile=0.0, matrix=False):
         self.hostile = hostile
+        self.matrix = matrix        # open the run with scenario_bytes_matrix (byte-level correspondence: every encoder path)
         self.rng = rng
         self.h = Harness(exe, real_z)
         self.td = rng.choice([b"t.example.com", b"a.bc", b"tun.x-y.org", b"T.Example.COM"])
@@ -533,8 +534,81 @@ class Gen:
             if self.rng.random() < 0.5:
                 self.act_ping(cl)
 
+    def scenario_bytes_matrix(self):
+        """a scripted opening for the byte-level correspondence (Server/Bytes.lean): every answer type x every downstream codec with
+        data-less, short and multi-fragment answers (tx); NS / A ns. / A www. queries from IPv4 and IPv6 askers, apex, mixed case,
+        deep sub-domains (nsa); names outside the domain of every length class with forwarding on (fwd); hand-made query datagrams
+        (EDNS0, compressed and oversized names) through `dns`"""
+        rng = self.rng
+        types = list(QTYPES)
+        rng.shuffle(types)
+        for t in types:
+            if self.h.dead or len(self.clients) >= 14:
+                break
+            self.act_new_client()
+            cl = self.clients[-1]
+            if not cl.versioned:
+                continue
+            cl.qtype = t
+            st = self.q(cl, cl.c.login(), meta={"kind": "L", "good": True})
+            for e in (st.events if st else []):
+                if e[0] == "ans" and vlib.unhx(e[6]).count(b"-") == 3:
+                    cl.authed = True
+                    try:
+                        cl.tun_ip = struct.unpack(">I", bytes(int(x) for x in vlib.unhx(e[6]).split(b"-")[1].split(b".")))[0]
+                    except Exception:
+                        pass
+            if not cl.authed:
+                continue
+            if rng.random() < 0.5:
+                self.q(cl, cl.c.option(b"l"), meta={"kind": "O"}); cl.lazy = True
+            letters = [b"t", b"s", b"u", b"v", b"r"]
+            rng.shuffle(letters)
+            for letter in letters:
+                self.q(cl, cl.c.option(letter), meta={"kind": "O"})
+                self.q(cl, cl.c.downenc_test(letter, 1), meta={"kind": "Y"})
+                if cl.tun_ip:
+                    n = rng.choice([0, 30, 150, 400, 1100])
+                    frame = C.ip_packet(cl.tun_ip, bytes(rng.randrange(256) for _ in range(n)))
+                    self.h.send("tun " + vlib.hx(frame), {"kind": "tun", "dst": cl.tun_ip, "frame": frame})
+                for _ in range(rng.randrange(2, 7)):
+                    self.act_ping(cl)
+                    if rng.random() < 0.2:
+                        self.h.send("tick", {"kind": "tick"})
+                if rng.random() < 0.4:
+                    fs = rng.choice([2, 50, 100, 200, 1200])
+                    self.q(cl, cl.c.set_fragsize(fs), meta={"kind": "N", "fs": fs})
+                if rng.random() < 0.3:
+                    self.h.send("rand %d" % rng.randrange(1 << 31))
+                    self.q(cl, cl.c.fragsize_probe(rng.choice([2, 100, 500, 1200, 2047])), meta={"kind": "R"})
+        base = self.srvtd[2:] if self.srvtd.startswith(b"*.") else self.srvtd
+        sub = (b"x9." + base) if self.srvtd.startswith(b"*.") else base
+        askers = [addr(0x0a630000 | rng.randrange(1, 9), 5353), addr((0xfd00 << 112) | rng.randrange(1, 4), 4000, 6)]
+        for src in askers:
+            for name, qt, kind in ([(sub, 2, "ns"), (flip_case(rng, sub), 2, "ns"), (b"abc." + sub, 2, "ns"), (b"a.b-c.d." + sub, 2, "ns"),
+                                    (b"x" * 63 + b"." + sub, 2, "ns"), (b"ns." + sub, 2, "ns"),
+                                    (b"ns." + sub, 1, "a"), (b"Ns." + flip_case(rng, sub), 1, "a"), (b"www." + sub, 1, "a"), (b"wWW." + sub, 1, "a"),
+                                    (b"ns." + sub, 16, "a"), (b"www." + sub, 28, "a"), (b"nsx." + sub, 1, "a"), (sub, 1, "a")]):
+                self.h.send("q %s %d %d %s" % (src, self.dnsid(), qt, vlib.hx(name)), {"kind": kind})
+            for n in (1, 3, 10, 62, 63, 64, 65, 127, 200, 243, 244, 250, 253, 254, 255, 300):
+                name = b"y" * min(63, n)
+                while len(name) < n:
+                    name += b"." + b"z" * min(63, n - len(name) - 1)
+                if rng.random() < 0.2:
+                    name = name.replace(b"y" * 63, b"y" * 64, 1)      # a label putname refuses
+                self.h.send("q %s %d %d %s" % (src, self.dnsid(), rng.choice([1, 16, 28, 15, 255, 2]), vlib.hx(name.rstrip(b"."))), {"kind": "outside"})
+            # hand-made datagrams: EDNS0, a question name that ends in a compression pointer into itself, two questions
+            for nm, qt in ((b"ns." + sub, 1), (sub, 2), (b"paaaa." + sub, 10), (b"www.other.org", 1)):
+                msg = P.query(self.dnsid(), nm, qt, edns=True)
+                self.h.send("dns %s %s" % (src, vlib.hx(msg)), {"kind": "hostile"})
+            w = P.wire_name(sub)
+            msg = P.header(self.dnsid(), 0x0100, 1, 0) + b"\x03abc" + bytes([0xc0, 12 + 4 + 2 + 4]) + struct.pack(">HH", 2, 1) + w
+            self.h.send("dns %s %s" % (src, vlib.hx(msg)), {"kind": "hostile"})
+
     def run(self, nsteps, hostile=0.0):
         rng = self.rng
+        if self.matrix:
+            self.scenario_bytes_matrix()
         if rng.random() < 0.5:
             self.scenario_lazy_repeats()
         for _ in range(nsteps):
@@ -581,8 +655,13 @@ class Gen:
         return self.h
 
 
-def model_ops(steps):
-    """derive the op lines the Lean model is fed (docs/SRV_PROTOCOL.md, "model ops")"""
+def model_ops(steps, level="bytes"):
+    """derive the op lines the Lean model is fed (docs/SRV_PROTOCOL.md, "model ops").
+    level="bytes" (default): the harness ops unchanged — the driver decodes `dns`/`q` datagrams itself (Server/Bytes.lean) and answers
+    with the harness's full line (dq, tx, nsa/fwd bytes).  level="session": the older decoded-query ops (`qd`/`rawf`/`tick` derived
+    from the C side's `dq` event), answered without tx/dq and with `nsa`/`fwd` bytes replaced by `-`."""
+    if level == "bytes":
+        return [st.op for st in steps]
     out = []
     for st in steps:
         t = st.op.split()
@@ -595,14 +674,17 @@ def model_ops(steps):
             if dq is None or int(dq[1]) <= 0:
                 out.append("tick")        # read_dns drops it, but the iteration (sweep, top of loop) still runs
             else:
-                out.append("q %s %s %s %s" % (t[1], dq[2], dq[3], dq[4]))
+                out.append("qd %s %s %s %s" % (t[1], dq[2], dq[3], dq[4]))
         else:
             out.append(st.op)
     return out
 
 
-def project(line, for_model=True):
-    """drop the events the model does not produce at this level (tx, dq) and the bytes of nsa/fwd"""
+def project(line, for_model=True, level="bytes"):
+    """what of an answer line is compared with the model.  level="bytes": everything (every emitted datagram byte for byte);
+    level="session": drop the events the session-level model does not produce (tx, dq) and the bytes of nsa/fwd"""
+    if level == "bytes":
+        return " | ".join(p.strip() for p in line.split(" | "))
     parts = [p.strip() for p in line.split(" | ")]
     keep = []
     for p in parts:
